@@ -917,7 +917,17 @@ pub fn check_c18(_case: &Case, h: &History) -> Vec<Violation> {
                         }
                         a
                     }
-                    LineRes::Err(_) => vec![0, al],
+                    LineRes::Err(k) => {
+                        // a failed read: 0 or AL unchanged; when the bytes of a non-UTF-8 line are
+                        // known (raw reads), taking its first byte is a fair answer too
+                        let mut a = vec![0, al];
+                        if let Some(hex) = k.strip_prefix("InvalidData:") {
+                            if let Ok(b) = u8::from_str_radix(&hex[..hex.len().min(2)], 16) {
+                                a.push(b);
+                            }
+                        }
+                        a
+                    }
                 };
                 if !ok.contains(&got) {
                     v.push(Violation::new(
